@@ -671,7 +671,13 @@ def st_eos(families=ANALYTIC_FAMILIES, tn_decades=(-2.0, 3.0), strong=None, weig
         "traced": st_cubic((max(tn_decades[0], -2.0), min(tn_decades[1], 3.0)), "traced"),
     }
     w = weights or {}
-    pool = []
+    order = []
     for f in families:
-        pool.extend([table[f]] * int(w.get(f, 1)))
-    return st.one_of(pool)
+        order.extend([f] * int(w.get(f, 1)))
+
+    # (st.one_of de-duplicates identical strategies, so weights are realised through an index draw)
+    @st.composite
+    def pick(draw):
+        return draw(table[draw(st.sampled_from(order))])
+
+    return pick()
